@@ -50,7 +50,13 @@ func (c *Cluster) updateChains() {
 // Digest is a canonical digest of the whole cluster state: equal digests mean
 // equal per-node insertion sequences, pools, heads, consensus progress,
 // blocks (with signer sets), validator-set tables, node states and clocks.
-func (c *Cluster) Digest() uint64 {
+func (c *Cluster) Digest() uint64 { return c.digest(true) }
+
+// DataDigest is Digest without the nodes' state-machine state (Babbling,
+// CatchingUp, …): hashgraph, store, validator sets, pools, application only.
+func (c *Cluster) DataDigest() uint64 { return c.digest(false) }
+
+func (c *Cluster) digest(withState bool) uint64 {
 	c.updateChains()
 	h := sha256.New()
 	for _, n := range c.Nodes {
@@ -65,7 +71,10 @@ func (c *Cluster) Digest() uint64 {
 		h.Write(n.chain[:])
 		cs := n.Node.VCoreState()
 		hgr := n.Node.VHashgraph()
-		fmt.Fprintf(h, "|st=%d|head=%s|seq=%d|ar=%d|rr=%d|tr=%d|", n.Node.GetState(), cs.Head, cs.Seq, cs.AcceptedRound, cs.RemovedRound, cs.TargetRound)
+		if withState {
+			fmt.Fprintf(h, "|st=%d", n.Node.GetState())
+		}
+		fmt.Fprintf(h, "|head=%s|seq=%d|ar=%d|rr=%d|tr=%d|", cs.Head, cs.Seq, cs.AcceptedRound, cs.RemovedRound, cs.TargetRound)
 		for _, tx := range cs.TxPool {
 			fmt.Fprintf(h, "tx:%x,", tx)
 		}
